@@ -234,6 +234,26 @@ def _timezone_name(ctx, m, rule='C17.D3'):
             p = getattr(n, '_parent', None)
             if isinstance(p, ast.If) and off and norm(p.test) in ('%s == datetime.timedelta(0)' % off, 'not %s' % off):
                 ctx.ob(rule, 'the UTC shortcut is taken only when the offset is zero', True, '%s:%d' % (FZ, n.lineno))
+                # ... and only for a tzinfo that is not a mapped zone: the fast path must have been tried before
+                fast = [x for x in body if isinstance(x, ast.Try)
+                        and any(isinstance(y, ast.Attribute) and y.attr == 'zone' for y in ast.walk(x))]
+                top = p
+                while getattr(top, '_parent', None) is not fn and getattr(top, '_parent', None) is not None:
+                    top = top._parent
+                if not fast:
+                    ctx.error(rule, 'timezone_name: mapped-zone fast path not recognised')
+                elif top in body and body.index(top) > body.index(fast[0]):
+                    ctx.ob(rule, 'the UTC shortcut is reached only after the mapped-zone lookup failed', True,
+                           '%s:%d' % (FZ, n.lineno))
+                elif top in body:
+                    ctx.violation(rule, '%s::timezone_name' % FZ, norm(p),
+                                  'a date-time in Europe/London in January (offset +00:00) is written with the zone name UTC '
+                                  'instead of London: it reads back as a UTC value, another Haystack DateTime (GMT, Lisbon, '
+                                  'Reykjavik, Accra likewise)',
+                                  'the zero-offset shortcut `return \'UTC\'` is taken before the zone of a mapped tzinfo is '
+                                  'looked up', file=FZ, line=n.lineno, engine='E6')
+                else:
+                    ctx.error(rule, 'timezone_name: position of the UTC shortcut not recognised')
             else:
                 ctx.violation(rule, '%s::timezone_name' % FZ, norm(p) if p is not None else norm(n),
                               'a +05:00 fixed-offset value is written with the zone UTC', 'return "UTC" is not guarded by '
